@@ -2,11 +2,13 @@
 """C02 — block renders show exactly the image's pixels (colour and transparency)."""
 from __future__ import annotations
 
+import io
 import os
 import random
 import math
 import struct
 import sys
+import tempfile
 
 sys.path.insert(0, os.path.dirname(os.path.abspath(__file__)))
 from common import framework as fw  # noqa: E402
@@ -20,6 +22,8 @@ from PIL import Image  # noqa: E402
 from term_image.image import BlockImage  # noqa: E402
 
 NO_ALPHA_MODES = {"1", "L", "RGB", "HSV", "CMYK"}
+TMP = tempfile.mkdtemp(prefix="c02-")
+DEFAULT_ALPHA = 40 / 255  # documented default threshold of str() / format() without '#'
 
 
 def hx(b: bytes) -> str:
@@ -64,7 +68,7 @@ class C02(Property):
     driver = "drv_c02"
     partial = ("Pillow's convert / resize(BOX) / alpha_composite (uniform→uniform and identity at equal size are "
                "checked by the oracle against Pillow itself); round(alpha*255) is evaluated by CPython in the harness")
-    quick_cases = 600
+    quick_cases = 1200
     thorough_cases = 8000
 
     def gen_constants(self):
@@ -105,13 +109,50 @@ class C02(Property):
                 yield Case(f"thr {int.from_bytes(struct.pack('>d', a), 'big')}", {"thr_alpha": a}, "thr", True)
                 continue
             op = rng.choice(["want", "want", "block", "rounda"])
-            yield Case(op, d, f"{op}-{shape}-{'a' if isinstance(d['alpha'], float) else 's' if d['alpha'] else 'n'}", True)
+            # where the pixels come from (in-memory image / a file / an image opened from a file / one frame of an
+            # animation) and which public entry point renders them
+            if op != "rounda" and rng.random() < 0.5:
+                if rng.random() < 0.5 and d["mode"] in ("1", "L", "LA", "P", "RGB", "RGBA") and shape != "uniform-up":
+                    d["source"] = rng.choice(["file", "pil-file"])
+                elif shape == "free":
+                    d["source"] = rng.choice(["file", "pil-file"])
+                    d["animated"] = rng.choice([2, 3])
+                    d["frame_no"] = rng.randrange(d["animated"])
+                d["entry"] = rng.choice(["str", "format", "format", None] + (["iter", "iter"] if d.get("animated") else []))
+                if d["entry"]:
+                    d["split"] = False
+                    d["prerender"] = False
+            yield Case(op, d, f"{op}-{shape}-{'a' if isinstance(d['alpha'], float) else 's' if d['alpha'] else 'n'}"
+                       + ("-" + d["source"] if d.get("source") else "") + ("-frame" if d.get("animated") else "")
+                       + ("-" + d["entry"] if d.get("entry") else ""), True)
+
+    def _source(self, d):
+        """(the pixels the caller handed over, as an independent PIL image; how to build the instance)"""
+        if d.get("animated"):
+            frames = [imgkit.make_image(dict(d, iseed=d["iseed"] + 7 * k, mode="RGB")).convert("P") for k in range(d["animated"])]
+            path = os.path.join(TMP, f"anim-{d['iseed']}.gif")
+            frames[0].save(path, save_all=True, append_images=frames[1:], duration=100, loop=0)
+            ref = Image.open(path)
+            k = d["frame_no"] if d["frame_no"] < getattr(ref, "n_frames", 1) else 0
+            ref.seek(k)
+            src = ref.copy()
+        elif d.get("source"):
+            path = os.path.join(TMP, f"still-{d['iseed']}.png")
+            imgkit.make_image(d).save(path)
+            src = Image.open(path)
+            src.load()
+            k = 0
+        else:
+            return imgkit.make_image(d), (lambda: BlockImage(imgkit.make_image(d))), 0
+        make = (lambda: BlockImage.from_file(path)) if d["source"] == "file" else (lambda: BlockImage(Image.open(path)))
+        return src, make, k
 
     def _image(self, d):
-        img = imgkit.make_image(d)
+        img, make, frame_no = self._source(d)
         env.reset_env()
         env.set_env(bg=d["bg"], term_size=(200, 100), is_on_kitty=d["kitty_term"])
-        im = BlockImage(img)
+        im = make()
+        d["_frame"] = frame_no
         if d["shape"] == "identity":
             im.set_size(width=d["cols"], height=d["lines"])  # manual size: no aspect ratio adjustment
         elif d["cols"] <= 2 * d["lines"]:
@@ -139,7 +180,29 @@ class C02(Property):
             # the same instance rendered before with the same settings: nothing may carry over
             im._renderer(im._render_image, d["alpha"], split_cells=d["split"])
         im._get_render_data = spy
-        out = im._renderer(im._render_image, d["alpha"], split_cells=d["split"])
+        entry, alpha = d.get("entry"), d["alpha"]
+        if entry == "iter" and not im._is_animated:
+            entry = "format"
+        if d.get("_frame") and entry != "iter":
+            im.seek(d["_frame"])
+        if not entry:
+            out = im._renderer(im._render_image, alpha, split_cells=d["split"])
+        elif entry == "str":
+            out, alpha = str(im), DEFAULT_ALPHA
+        else:
+            spec = "1.1" + ("#" if alpha is None else "##" if alpha == "#" else "#" + alpha[1:] if isinstance(alpha, str)
+                            else "#" + repr(float(alpha))[1:])
+            if entry == "format":
+                out = format(im, spec)
+            else:
+                from term_image.image import ImageIterator
+                it = ImageIterator(im, 1, spec, False)
+                try:
+                    for _ in range(d.get("_frame", 0) + 1):
+                        out = next(it)
+                finally:
+                    it.close()
+        d["_alpha"] = alpha
         w, h = im.rendered_size
         d["_size"] = [w, h]
         d["_out"] = out
@@ -181,7 +244,8 @@ class C02(Property):
         if out is None:
             return None
         w, h = d["_size"]
-        where = f"{d['mode']}/{d['pattern']}/{d['shape']}/alpha={d['alpha']}/{w}x{h}/bg={d['bg']}/kitty={int(d['kitty_term'])}"
+        where = (f"{d['mode']}/{d['pattern']}/{d['shape']}/alpha={d['alpha']}/{w}x{h}/bg={d['bg']}/kitty={int(d['kitty_term'])}"
+                 + (f"/{d.get('source')}/{d.get('entry')}" + ("/frame" if d.get("animated") else "") if d.get("source") or d.get("entry") else ""))
         try:
             # on kitty a cell background equal to the terminal's default background is not painted:
             # read it as "shows the terminal's own background" (this is what the library's workaround is for)
@@ -189,9 +253,9 @@ class C02(Property):
                               invisible_bg=d["bg"] if d["kitty_term"] else None)
         except tk.TokenizeError as e:
             return Failure(f"tokenize/{where}", str(e))
-        src = imgkit.make_image(d)
+        src = self._source(d)[0]
         size = (w, 2 * h)
-        alpha = d["alpha"]
+        alpha = d.get("_alpha", d["alpha"])
         bghex = "#" + "".join(f"{x:02x}" for x in d["bg"]) if d["bg"] else "#000000"
         transparent = None
         if alpha is None or src.mode in NO_ALPHA_MODES:
